@@ -24,7 +24,7 @@ FORMS = {
                 ("div_euclid_int", "p", "q"), ("checked_div_euclid_int", "c", "q"),
                 ("wrapping_div_euclid_int", "w", "q"), ("overflowing_div_euclid_int", "o", "q")],
     "rem_r": [("rem_ref%d" % i, "p", "t") for i in range(4)],
-    "rem_int_r": [("rem_int_ref%d" % i, "p", "t") for i in range(3)],
+    "rem_int_r": [("rem_int_ref%d" % i, "p", "t") for i in range(4)],
 }
 
 
